@@ -1,8 +1,4 @@
-//! Verification facade (cargo feature `verif-hooks`).
-//!
-//! Add-only access to crate-private items for the external verification harness. Nothing in
-//! here is used by the crate itself; with the feature off this module does not exist.
-#![allow(missing_docs, clippy::type_complexity)]
+//! Facade for `packet/mod.rs`.
 
 use crate::packet::{Packet, PacketHeader, PacketKind, ProtocolIdentity};
 use crate::Enr;
